@@ -8,7 +8,7 @@
 import Optyx.Drive.LP
 import Optyx.Py.ScipyArgs
 
-namespace Optyx.Drive
+namespace Optyx.Drive.LPNs
 open Optyx Optyx.Py
 
 def optNat : Sexp → Option (Option Nat)
@@ -44,4 +44,4 @@ def handleScipy (cmd : String) (args : List Sexp) : Option String :=
       | _, _, _ => "bad-input"
   | _, _ => none
 
-end Optyx.Drive
+end Optyx.Drive.LPNs
